@@ -899,6 +899,30 @@ pub fn gen_c04(rng: &mut Rng, tier: &str, out: &mut Out) {
         }
         mth_queries(out, true, &u, 30);
     }
+    // names whose UTF-8 byte order and UTF-16 code-unit order differ (supplementary-plane characters
+    // against U+E000..U+FFFF) — classes and, inside one class, methods: every one must be found
+    {
+        const CH: &[&str] = &["a", "\u{e9}", "\u{65e5}", "\u{d7ff}", "\u{e000}", "\u{feff}", "\u{ff41}", "\u{ffff}", "\u{10000}", "\u{1d49c}", "\u{10ffff}"];
+        let mut t = String::new();
+        for (i, c) in CH.iter().enumerate() {
+            t.push_str(&format!("com.example.Original{} -> p.{}:\n", i, c));
+            t.push_str(&format!("    1:1:void m{}():{} -> {}x\n", i, i + 10, c));
+        }
+        t.push_str("com.example.All -> q:\n");
+        for (i, c) in CH.iter().enumerate() {
+            t.push_str(&format!("    1:1:void n{}(int):{} -> k{}\n", i, i + 30, c));
+        }
+        map_op(out, true, t.as_bytes());
+        for c in CH {
+            out.d(format!("CLS {}", hxs(&format!("p.{}", c))));
+            out.d(format!("MTH {} {}", hxs(&format!("p.{}", c)), hxs(&format!("{}x", c))));
+            out.d(format!("FRL {} {} 1 -", hxs(&format!("p.{}", c)), hxs(&format!("{}x", c))));
+            out.d(format!("MTH {} {}", hxs("q"), hxs(&format!("k{}", c))));
+            out.d(format!("FRL {} {} 1 -", hxs("q"), hxs(&format!("k{}", c))));
+            out.d(format!("FRP {} {} {}", hxs("q"), hxs(&format!("k{}", c)), hxs("int")));
+            out.count("utf16_order_names");
+        }
+    }
     // an ambiguous group whose FIRST original name is the very first string of the file (string-table
     // offset 0 is a valid offset, not "none")
     for first in ["a", "o.A", "m"] {
